@@ -99,6 +99,7 @@ fn draw_writer(rng: &mut Rng) -> (WriterCfg, Vec<u8>) {
     let w = match rng.below(4) {
         0 => WriterCfg::Real,
         1 => WriterCfg::Vec,
+        2 if rng.chance(1, 3) => WriterCfg::Reentrant(rng.range(1, 12) as u8),
         _ => WriterCfg::Paged(*rng.pick(&[1usize, 2, 3, 7, 8, 13, 16, 64, 255, 256])),
     };
     let sides = if rng.chance(1, 24) { 9 } else { 8 };
@@ -146,7 +147,7 @@ fn shrink_case(c: &Case) -> Vec<Case> {
             });
         }
     }
-    if c.writer != WriterCfg::Vec && c.writer != WriterCfg::Real {
+    if c.writer != WriterCfg::Vec && c.writer != WriterCfg::Real && !matches!(c.writer, WriterCfg::Reentrant(_)) {
         out.push(Case {
             writer: WriterCfg::Vec,
             ..c.clone()
@@ -1284,16 +1285,12 @@ pub struct C09;
 
 fn exec_c09(case: &Case, obs: &mut Obs) -> Result<(), Failure> {
     let mut w = SimWriter::new(&case.writer, &case.prefix);
-    let mut expected = case.prefix.clone();
     let mut last_len = case.prefix.len();
+    let mut encoded: Vec<CrateValue> = Vec::new();
     for (i, v) in case.values.iter().enumerate() {
         let cv = match to_crate(v) {
             Some(c) => c,
             None => continue,
-        };
-        let fresh = match encode_fresh(&cv) {
-            Ok(f) => f,
-            Err(_) => return Ok(()), // not encodable at all: C07's business
         };
         obs.steps += 1;
         let cls = format!(
@@ -1301,7 +1298,26 @@ fn exec_c09(case: &Case, obs: &mut Obs) -> Result<(), Failure> {
             if matches!(v, Value::Avp(_)) { "avp" } else { "message" },
             if case.prefix.is_empty() && i == 0 { "-at-zero" } else { "" }
         );
+        if let WriterCfg::Reentrant(at) = case.writer {
+            // on the at-th writer call of this value, the same value is
+            // encoded once more, completely, into a writer of its own
+            let again = v.clone();
+            w.reentry = Some((
+                at as u64,
+                Box::new(move || {
+                    if let Some(cv2) = to_crate(&again) {
+                        let _ = encode_fresh(&cv2);
+                    }
+                }),
+            ));
+            obs.count("probe:reentrant-encode");
+        }
         if let Err(c) = encode_into(&cv, &mut w) {
+            // not encodable at all is C07's business; encodable into an
+            // empty writer but not here is a violation
+            if encode_fresh(&cv).is_err() {
+                return Ok(());
+            }
             return Err(Failure::new(
                 "C09",
                 "position-independent",
@@ -1321,7 +1337,6 @@ fn exec_c09(case: &Case, obs: &mut Obs) -> Result<(), Failure> {
                 format!("while encoding value #{i} at writer offset {last_len}: {vv}"),
             ));
         }
-        expected.extend_from_slice(&fresh);
         let now = {
             use rl2tp::common::Writer;
             w.len()
@@ -1335,6 +1350,17 @@ fn exec_c09(case: &Case, obs: &mut Obs) -> Result<(), Failure> {
             ));
         }
         last_len = now;
+        encoded.push(cv);
+    }
+    // the reference encodings are taken afterwards, each into a fresh empty
+    // writer (taking them first would let a "last value encoded" shortcut
+    // see its own value)
+    let mut expected = case.prefix.clone();
+    for cv in &encoded {
+        match encode_fresh(cv) {
+            Ok(f) => expected.extend_from_slice(&f),
+            Err(_) => return Ok(()),
+        }
     }
     obs.writer_calls += w.calls;
     if w.straddles > 0 {
